@@ -1265,7 +1265,7 @@ where
     let vm = cx.vm.clone();
     let name = T::NAME;
     let shape = T::SHAPE;
-    let imports = "let { N3_g201, E_g120 } = import! c11o\n";
+    let imports = "let { N3_g210, E_g210 } = import! c11o\n";
     let pre = format!("{}{}let {{ {} }} = import! c11o\n", HEADER, imports, name);
     // values: distinct per field, extremes first, then seeded random ones
     let mut r = Rng::new(cx.seed, salt(name));
@@ -1276,7 +1276,7 @@ where
         vals.extend(T::make(&mut Src { ints: ints.to_vec(), strs: strs(k), i: 0, s: 0 }));
     }
     for k in 0..(if cx.n_random > 100 { 12 } else { 3 }) {
-        let ints: Vec<i64> = (0..7).map(|_| r.next_u64() as i64).collect();
+        let ints: Vec<i64> = (0..7).map(|_| r.next() as i64).collect();
         vals.extend(T::make(&mut Src { ints, strs: strs(3 + k), i: 0, s: 0 }));
     }
     let replay = |dir: &str, x: &T| json!({"op": "order", "type": name, "direction": dir, "val": x.val(), "gluon_fields": T::gluon_fields()});
@@ -1289,7 +1289,7 @@ where
     }
     // gluon functions of the bound type
     let mut observers: Vec<OwnedFunction<fn(T) -> String>> = vec![];
-    for (k, o) in T::obs_src().iter().enumerate() {
+    for (k, o) in T::obs_src().iter().take(1).enumerate() {
         let src = format!("{}let f : {} -> String = {}\nf\n", pre, name, o);
         match vm.run_expr::<OwnedFunction<fn(T) -> String>>(&format!("c11_ord_obs{}_{}", k, name), &src) {
             Ok((f, _)) => observers.push(f),
@@ -1336,8 +1336,14 @@ where
             Ok(Err(e)) => cx.out.oracle_fail(&format!("derive-pushable:error:{}", shape), &format!("{}: {}", name, norm_err(&e.to_string())), replay("push", x)),
             Err(p) => cx.out.oracle_fail(&format!("derive-pushable:panic:{}", shape), &format!("{}: {}", name, norm_err(&p)), replay("push", x)),
         }
-        // --- Rust -> gluon: gluon code of the DECLARED type observes the corresponding value
-        for f in observers.iter_mut() {
+        // --- Rust -> gluon: gluon code of the DECLARED type observes the corresponding value.
+        // NOT run when the field types differ by position: the pushed record keeps the Rust order, typed
+        // gluon code reads by the offset of ITS declaration (GetOffset) and would take an Int for a String
+        // (process abort on the unchanged tree: finding derive-pushable:fields-swapped, see notes/C11.md)
+        if !T::TYPE_COMPAT {
+            cx.out.count("order:skipped:observe-type-confusion");
+        }
+        for f in observers.iter_mut().filter(|_| T::TYPE_COMPAT) {
             match gv::catch(|| f.call(x.clone())) {
                 Ok(Ok(seen)) => {
                     if seen != x.obs() {
@@ -1351,7 +1357,7 @@ where
             }
         }
         // --- round trip through gluon functions (identity; rebuild in the gluon declaration order)
-        for (how, f) in fns.iter_mut() {
+        for (how, f) in fns.iter_mut().filter(|(h, _)| T::TYPE_COMPAT || *h == "identity") {
             match gv::catch(|| f.call(x.clone())) {
                 Ok(Ok(y)) => {
                     if y != *x {
@@ -1381,11 +1387,11 @@ where
                         } else {
                             cx.out.count("order:get:ok");
                         }
-                        format!("(some {})", y.val())
+                        y.val()
                     }
                     Err(p) => {
                         cx.out.oracle_fail(&format!("derive-getable:panic:{}", shape), &format!("{}: reading the gluon value {} (fields {}) panicked: {}", name, clip(&x.lit()), T::gluon_fields(), norm_err(&p)), replay("get", x));
-                        "none".into()
+                        "panic".into()
                     }
                 };
                 cx.out.case(&format!("getg {} {}", T::tcode(), g.sexp()), &b);
